@@ -320,6 +320,10 @@ func init() {
 			if err != nil {
 				return nil, err
 			}
+			for i := range jobs {
+				// argument indices are arbitrary 32-bit values here: whatever the compiler ACCEPTS must be valid
+				jobs[i].Params["anyarg"] = 1
+			}
 			lj, err := largeNameJobs(c, "C05", archs, boundaryNames)
 			if err != nil {
 				return nil, err
@@ -345,7 +349,7 @@ func init() {
 			return jobs, nil
 		},
 		Owns:       func(tag string) bool { return tagProp(tag) == "C05" },
-		Bounds:     map[string]interface{}{"small": "all structures incl. empty groups, weight <=7 quick / <=8 thorough, argument indices symbolic", "large": "whole tables, 248..259 names, long conditional lists, all-empty policies on four architectures", "limit": "programs <= 4096 instructions (longer ones are outside by the statement)"},
+		Bounds:     map[string]interface{}{"small": "all structures incl. empty groups, weight <=7 quick / <=8 thorough, argument indices arbitrary 32-bit values (no validity assumption: whatever is accepted must be valid)", "large": "whole tables, 248..259 names, long conditional lists, all-empty policies on four architectures", "limit": "programs <= 4096 instructions (longer ones are outside by the statement)"},
 		Outside:    policyOutside, Assumptions: policyAssumptions, Trusted: policyTrusted,
 	})
 }
